@@ -27,14 +27,22 @@ FREEZE_EXCEPTIONS = {
 }
 
 
+FREEZE_EXCEPTION_TYPES = {
+    "regex::Regex": ("regex_automata::meta::Regex",),
+    "recursive::Indirect": ("recursive::OnceCell<",),
+}
+
+
 def _freeze_excused(p, a):
     """Interior mutability of ADT `p` is excused only when every path to an UnsafeCell starts at a reviewed field."""
     exc = FREEZE_EXCEPTIONS.get(p)
     if exc is None:
         return False, a["interior_mut"][0].strip()
+    types = FREEZE_EXCEPTION_TYPES.get(p, ())
     for path in a["interior_mut"]:
-        m = re.match(r"^\s*\.(\w+):", path)
-        if not m or m.group(1) not in exc[0]:
+        m = re.match(r"^\s*\.(\w+):(\S+)", path)
+        # the reviewed field, by name - or, if it was renamed, by its (reviewed) type
+        if not m or not (m.group(1) in exc[0] or any(m.group(2).startswith(t) for t in types)):
             return False, path.strip()
     return True, None
 
